@@ -1,0 +1,165 @@
+//go:build verif
+
+package iterator
+
+// Contracts for the deductive verifier in /verif (property C07; used by C08, C09, C15, C19).
+// Only part of the build under the tag `verif`.
+//
+// Source protocol. An iterator denotes a fixed finite sequence seq[0..n) of which pos items have
+// been handed out; pulls counts the Next calls it has received (laziness is stated with it).
+// The protocol contract below is ASSUMED of caller-supplied iterators and PROVED of the
+// implementations in this package that are sources (Slice, Counter, Repeat, Empty).
+// Combinators get contracts relative to the ghost state of their source.
+
+//@ ghost Iterator.seq seq[T]
+//@ ghost Iterator.n int
+//@ ghost Iterator.pos int
+//@ ghost Iterator.pulls int
+
+//@ pred itInv(it) = it != nil && 0 <= it.pos && it.pos <= it.n
+//@ pred nextSpec(it, item, ok) = it.pulls == old(it.pulls) + 1
+//@   && (old(it.pos) < it.n ==> ok && item == it.seq[old(it.pos)] && it.pos == old(it.pos) + 1)
+//@   && (old(it.pos) >= it.n ==> !ok && item == zero(item) && it.pos == old(it.pos))
+//@ pred untouched(it) = it.pos == old(it.pos) && it.pulls == old(it.pulls)
+
+//@ ext iterator.Iterator.Next(it) (item, ok)
+//@   requires itInv(it)
+//@   modifies it.pos, it.pulls
+//@   ensures itInv(it) && nextSpec(it, item, ok)
+
+// ---- sources ----
+
+//@ func Slice
+//@   props C07 C15
+//@   ghost result.seq := lambda j int :: s[j]
+//@   ghost result.n := len(s)
+//@   ghost result.pos := 0
+//@   ghost result.pulls := 0
+//@   ensures fresh(result) && result.n == len(s) && result.pos == 0 && result.pulls == 0 && result.(*sliceIterator[T]).a == s
+//@   ensures forall j int {result.seq[j]} :: 0 <= j && j < len(s) ==> result.seq[j] == s[j]
+
+//@ pred slRep(iter, it) = itInv(it) && len(iter.a) == it.n - it.pos
+//@   && (forall j int {iter.a[j]} :: 0 <= j && j < len(iter.a) ==> iter.a[j] == it.seq[it.pos + j])
+
+//@ func sliceIterator.Next
+//@   props C07 C15
+//@   requires slRep(iter, iter.(Iterator[T]))
+//@   modifies iter.a, iter.(Iterator[T]).pos, iter.(Iterator[T]).pulls
+//@   ghost iter.(Iterator[T]).pulls := old(iter.(Iterator[T]).pulls) + 1
+//@   ghost iter.(Iterator[T]).pos := old(iter.(Iterator[T]).pos) < iter.(Iterator[T]).n ? old(iter.(Iterator[T]).pos) + 1 : old(iter.(Iterator[T]).pos)
+//@   ensures slRep(iter, iter.(Iterator[T])) && nextSpec(iter.(Iterator[T]), result0, result1)
+
+//@ func Counter
+//@   props C07
+//@   ghost result.seq := lambda j int :: j
+//@   ghost result.n := n > 0 ? n : 0
+//@   ghost result.pos := 0
+//@   ghost result.pulls := 0
+//@   ensures fresh(result) && result.n == (n > 0 ? n : 0) && result.pos == 0 && result.pulls == 0
+//@   ensures result.(*counterIterator).i == 0 && result.(*counterIterator).n == n
+//@   ensures forall j int {result.seq[j]} :: result.seq[j] == j
+
+//@ pred ctrRep(iter, it) = itInv(it) && iter.i == it.pos && it.n == (iter.n > 0 ? iter.n : 0) && (forall j int {it.seq[j]} :: it.seq[j] == j)
+
+//@ func counterIterator.Next
+//@   props C07
+//@   requires ctrRep(iter, iter.(Iterator[int]))
+//@   modifies iter.i, iter.(Iterator[int]).pos, iter.(Iterator[int]).pulls
+//@   ghost iter.(Iterator[int]).pulls := old(iter.(Iterator[int]).pulls) + 1
+//@   ghost iter.(Iterator[int]).pos := old(iter.(Iterator[int]).pos) < iter.(Iterator[int]).n ? old(iter.(Iterator[int]).pos) + 1 : old(iter.(Iterator[int]).pos)
+//@   ensures ctrRep(iter, iter.(Iterator[int])) && nextSpec(iter.(Iterator[int]), result0, result1)
+
+//@ func Repeat
+//@   props C07
+//@   ghost result.seq := lambda j int :: item
+//@   ghost result.n := n > 0 ? n : 0
+//@   ghost result.pos := 0
+//@   ghost result.pulls := 0
+//@   ensures fresh(result) && result.n == (n > 0 ? n : 0) && result.pos == 0 && result.pulls == 0
+//@   ensures result.(*repeatIterator[T]).x == n && result.(*repeatIterator[T]).item == item
+//@   ensures forall j int {result.seq[j]} :: result.seq[j] == item
+
+//@ pred repRep(iter, it) = itInv(it) && (iter.x > 0 ? iter.x : 0) == it.n - it.pos && (forall j int {it.seq[j]} :: it.seq[j] == iter.item)
+
+//@ func repeatIterator.Next
+//@   props C07
+//@   requires repRep(iter, iter.(Iterator[T]))
+//@   modifies iter.x, iter.(Iterator[T]).pos, iter.(Iterator[T]).pulls
+//@   ghost iter.(Iterator[T]).pulls := old(iter.(Iterator[T]).pulls) + 1
+//@   ghost iter.(Iterator[T]).pos := old(iter.(Iterator[T]).pos) < iter.(Iterator[T]).n ? old(iter.(Iterator[T]).pos) + 1 : old(iter.(Iterator[T]).pos)
+//@   ensures repRep(iter, iter.(Iterator[T])) && nextSpec(iter.(Iterator[T]), result0, result1)
+
+//@ func emptyIterator.Next
+//@   props C07
+//@   ensures !result1 && result0 == zero(result0)
+
+// ---- combinators: contracts relative to the source ----
+
+//@ func Filter
+//@   props C07
+//@   ensures fresh(result) && result.(*filterIterator[T]).inner == iter && result.(*filterIterator[T]).keep == keep
+
+//@ func filterIterator.Next
+//@   props C07
+//@   requires itInv(iter.inner) && iter.keep != nil
+//@   modifies iter.inner.pos, iter.inner.pulls
+//@   loop 0: invariant itInv(iter.inner) && old(iter.inner.pos) <= iter.inner.pos && iter.inner.pulls == old(iter.inner.pulls) + iter.inner.pos - old(iter.inner.pos)
+//@   loop 0: invariant forall t int {iter.inner.seq[t]} :: old(iter.inner.pos) <= t && t < iter.inner.pos ==> !iter.keep(iter.inner.seq[t])
+//@   ensures itInv(iter.inner)
+//@   ensures result1 ==> old(iter.inner.pos) < iter.inner.pos && result0 == iter.inner.seq[iter.inner.pos-1] && iter.keep(result0)
+//@       && iter.inner.pulls == old(iter.inner.pulls) + iter.inner.pos - old(iter.inner.pos)
+//@       && (forall t int {iter.inner.seq[t]} :: old(iter.inner.pos) <= t && t < iter.inner.pos - 1 ==> !iter.keep(iter.inner.seq[t]))
+//@   ensures !result1 ==> result0 == zero(result0) && iter.inner.pos == iter.inner.n
+//@       && iter.inner.pulls == old(iter.inner.pulls) + iter.inner.n - old(iter.inner.pos) + 1
+//@       && (forall t int {iter.inner.seq[t]} :: old(iter.inner.pos) <= t && t < iter.inner.n ==> !iter.keep(iter.inner.seq[t]))
+
+//@ func Map
+//@   props C07
+//@   ensures fresh(result) && result.(*mapIterator[T, U]).inner == iter && result.(*mapIterator[T, U]).f == f
+
+//@ func mapIterator.Next
+//@   props C07
+//@   requires itInv(iter.inner) && iter.f != nil
+//@   modifies iter.inner.pos, iter.inner.pulls
+//@   ensures itInv(iter.inner) && iter.inner.pulls == old(iter.inner.pulls) + 1
+//@   ensures old(iter.inner.pos) < iter.inner.n ==> result1 && result0 == iter.f(iter.inner.seq[old(iter.inner.pos)]) && iter.inner.pos == old(iter.inner.pos) + 1
+//@   ensures old(iter.inner.pos) >= iter.inner.n ==> !result1 && result0 == zero(result0) && iter.inner.pos == old(iter.inner.pos)
+
+//@ func First
+//@   props C07
+//@   ensures fresh(result) && result.(*firstIterator[T]).inner == iter && result.(*firstIterator[T]).x == n
+
+//@ func firstIterator.Next
+//@   props C07
+//@   requires itInv(iter.inner)
+//@   modifies iter.x, iter.inner.pos, iter.inner.pulls
+//@   ensures itInv(iter.inner)
+//@   ensures old(iter.x) <= 0 ==> !result1 && result0 == zero(result0) && untouched(iter.inner) && iter.x == old(iter.x)
+//@   ensures old(iter.x) > 0 ==> iter.x == old(iter.x) - 1 && nextSpec(iter.inner, result0, result1)
+
+//@ func While
+//@   props C07
+//@   ensures fresh(result) && result.(*whileIterator[T]).inner == iter && result.(*whileIterator[T]).f == f && !result.(*whileIterator[T]).done
+
+//@ func whileIterator.Next
+//@   props C07
+//@   requires itInv(iter.inner) && iter.f != nil
+//@   modifies iter.done, iter.inner.pos, iter.inner.pulls
+//@   ensures itInv(iter.inner)
+//@   ensures old(iter.done) ==> !result1 && result0 == zero(result0) && untouched(iter.inner) && iter.done
+//@   ensures !old(iter.done) ==> iter.inner.pulls == old(iter.inner.pulls) + 1
+//@   ensures !old(iter.done) && old(iter.inner.pos) >= iter.inner.n ==> !result1 && result0 == zero(result0) && iter.inner.pos == old(iter.inner.pos) && !iter.done
+//@   ensures !old(iter.done) && old(iter.inner.pos) < iter.inner.n && iter.f(iter.inner.seq[old(iter.inner.pos)]) ==>
+//@       result1 && result0 == iter.inner.seq[old(iter.inner.pos)] && iter.inner.pos == old(iter.inner.pos) + 1 && !iter.done
+//@   ensures !old(iter.done) && old(iter.inner.pos) < iter.inner.n && !iter.f(iter.inner.seq[old(iter.inner.pos)]) ==>
+//@       !result1 && result0 == zero(result0) && iter.inner.pos == old(iter.inner.pos) + 1 && iter.done
+
+//@ func One
+//@   props C07
+//@   requires itInv(iter)
+//@   modifies iter.pos, iter.pulls
+//@   ensures itInv(iter)
+//@   ensures old(iter.n - iter.pos) == 1 ==> result1 && result0 == iter.seq[old(iter.pos)]
+//@   ensures old(iter.n - iter.pos) != 1 ==> !result1 && result0 == zero(result0)
+//@   ensures old(iter.n - iter.pos) == 0 ==> iter.pulls == old(iter.pulls) + 1
+//@   ensures old(iter.n - iter.pos) >= 1 ==> iter.pulls == old(iter.pulls) + 2
